@@ -600,14 +600,17 @@ def World.step (w : World) : Step → World
     | none => w
     | some ic =>
       if ic.dead ∨ ic.pend.isSome then w
-      else { w with conns := w.conns.set i { ic with c := setContext w.l ic.c u rs hl f } }
+      else
+        let ic' : IConn := { ic with c := setContext w.l ic.c u rs hl f }
+        { w with conns := w.conns.set i ic' }
   | .begin i b =>
     match w.conns[i]? with
     | none => w
     | some ic =>
       if ic.dead ∨ ic.pend.isSome then w
-      else { w with conns := w.conns.set i
-               { ic with c := (beginWrite ic.c b).1, pend := some (beginWrite ic.c b).2, written := ic.written ++ b } }
+      else
+        let ic' : IConn := { ic with c := (beginWrite ic.c b).1, pend := some (beginWrite ic.c b).2, written := ic.written ++ b }
+        { w with conns := w.conns.set i ic' }
   | .round i cap =>
     match w.conns[i]? with
     | none => w
@@ -616,11 +619,13 @@ def World.step (w : World) : Step → World
       | none => w
       | some pd =>
         match roundStep cap w.l ic.c pd with
-        | (l', c', pd', none) => { l := l', conns := w.conns.set i { ic with c := c', pend := some pd' } }
+        | (l', c', pd', none) =>
+          let ic' : IConn := { ic with c := c', pend := some pd' }
+          { l := l', conns := w.conns.set i ic' }
         | (l', c', pd', some st) =>
-          { l := l', conns := w.conns.set i
-              { ic with c := c', pend := none, out := ic.out ++ pd'.delivered, evs := ic.evs ++ pd'.evs,
-                        dead := ic.dead || decide (st ≠ .ok) } }
+          let ic' : IConn := { ic with c := c', pend := none, out := ic.out ++ pd'.delivered, evs := ic.evs ++ pd'.evs,
+                                       dead := ic.dead || decide (st ≠ .ok) }
+          { l := l', conns := w.conns.set i ic' }
 
 def World.run (w : World) (steps : List Step) : World := steps.foldl World.step w
 
